@@ -615,7 +615,7 @@ func desugar(s string) string {
 	return qualifySpec(r)
 }
 
-var reSpecFn = regexp.MustCompile(`(^|[^A-Za-z0-9_.])(EqT|Eq|SameArray|Same|Fresh|Old|AtEntry|Calls|NoCalls|Unchanged|Panics|AtomicWrites|LastCASOld|CalledOnce|TraceLen|TraceCall|Holding|Shared|Peek|Spawned|RunSpawned|IterLen|IterPosAtEntry|IterPos)\(`)
+var reSpecFn = regexp.MustCompile(`(^|[^A-Za-z0-9_.])(EqT|Eq|SameArray|Same|Fresh|Old|AtEntry|Calls|NoCalls|Unchanged|Panics|JSONFaithful|AtomicWrites|LastCASOld|CalledOnce|TraceLen|TraceCall|Holding|Shared|Peek|Spawned|RunSpawned|IterLen|IterPosAtEntry|IterPos)\(`)
 
 func qualifySpec(s string) string {
 	for {
